@@ -92,7 +92,7 @@ func (m *c19Machine) Next(t *rapid.T) c19Op {
 		for i := 0; i < n; i++ {
 			// mostly valid, small alphabet so that byte-identical records are common
 			// incl. strings with leading/trailing blanks: valid input that must read back verbatim
-			d := rapid.SampledFrom([]string{"d0", "d0", "d1", "QmHash", "", " d0 ", "d1\n"}).Draw(t, "digest")
+			d := rapid.SampledFrom([]string{"d0", "d0", "d1", "QmHash", "", " d0 ", "d1\n", "\uFFFD", "d\uFFFD0", "Zur M\u00fchle", "\u8bb0\u5f55"}).Draw(t, "digest")
 			a := rapid.SampledFrom([]string{"sha256", "sha256", "md5", "", "sha256\n", " md5"}).Draw(t, "algo")
 			if rapid.IntRange(0, 9).Draw(t, "valid") < 9 {
 				if d == "" {
@@ -102,7 +102,7 @@ func (m *c19Machine) Next(t *rapid.T) c19Op {
 					a = "sha256"
 				}
 			}
-			meta := rapid.SampledFrom([]string{"", "m"}).Draw(t, "meta")
+			meta := rapid.SampledFrom([]string{"", "m", "m", "caf\uFFFD \U0001F600", "\u200b", "a\x00b"}).Draw(t, "meta")
 			if rapid.IntRange(0, 4).Draw(t, "big") == 0 {
 				// records whose encoding exceeds one or several KiB (buffer reuse, chunking and the like only show there)
 				n := rapid.SampledFrom([]int{300, 1100, 1100, 2500, 9000}).Draw(t, "metalen")
